@@ -374,9 +374,20 @@ def transform_fn(src, spec):
         body = src[toks[lps[o][1]].start:toks[lps[o][2]].end]
         d = {}
         m = re.search(r"while\s+(\w+)\s*<\s*(\w+)\.len\(\)", hdr)
+        d["lenfact"] = "true"
         if m:
             d["ctr"], d["seq"] = m.group(1), m.group(2)
-        m = re.search(r"(\w+)\s*=\s*[\w:]+\(\s*\1\s*,", body) or re.search(r"(\w+)\s*\^=", body)
+        else:
+            # the bound hoisted into an immutable local before the loop: `let n = <seq>.len(); while <ctr> < n`
+            m = re.search(r"while\s+(\w+)\s*<\s*(\w+)\s*$", hdr.strip())
+            if m:
+                pre = src[toks[bo].end:toks[lps[o][0]].start]
+                m2 = re.search(r"let\s+%s(?:\s*:\s*usize)?\s*=\s*(\w+)\.len\(\)\s*;" % re.escape(m.group(2)), pre)
+                if m2:
+                    d["ctr"], d["seq"] = m.group(1), m2.group(1)
+                    d["lenfact"] = "%s == %s.len()" % (m.group(2), m2.group(1))
+        m = (re.search(r"(\w+)\s*=\s*[\w:]+\(\s*\1\s*,", body) or re.search(r"(\w+)\s*\^=", body)
+             or re.search(r"(\w+)\s*=\s*\(\s*\1\s*\^", body))
         if m:
             d["acc"] = m.group(1)
         return d
@@ -386,6 +397,7 @@ def transform_fn(src, spec):
         if "\u00a7" not in text:
             return text
         d = loop_names(o)
+        text = text.replace("\u00a7lenfact\u00a7", d.get("lenfact", "true"))
         for k in ("ctr", "seq", "acc"):
             if ("\u00a7%s\u00a7" % k) in text:
                 if k not in d:
